@@ -97,7 +97,19 @@ THEOREMS = {
             "Iauthd.Conf.Cex.f15_pinned_default_installed", "Iauthd.Conf.Cex.f15_pinned_other_order", "Iauthd.Conf.Cex.f15_fixed",
             "Iauthd.Conf.Cex.f16_pinned_null_host", "Iauthd.Conf.Cex.f16_fixed_default_host",
             "Iauthd.Conf.Cex.f27_pinned_pointer_bits", "Iauthd.Conf.Cex.f27_fixed_zero"],
-    "C16": [],
+    "C16": ["Iauthd.Conf.string_roundtrip", "Iauthd.Conf.scan_roundtrip", "Iauthd.Conf.decodeQ_of_scanQ",
+            "Iauthd.Conf.gapAny_ok", "Iauthd.Conf.gapFlat_ok", "Iauthd.Conf.parseString_at", "Iauthd.Conf.parenLoop_at",
+            "Iauthd.Conf.rt_entry", "Iauthd.Conf.rt_entries", "Iauthd.Conf.rt_top", "Iauthd.Conf.parse_rendered",
+            "Iauthd.Conf.bridge_ents", "Iauthd.Conf.renderEntries_noNul", "Iauthd.Conf.pfold_canonTree",
+            "Iauthd.Conf.C16_partial",
+            "Iauthd.Conf.boolean_spec", "Iauthd.Conf.integer_spec", "Iauthd.Conf.interval_spec", "Iauthd.Conf.volume_spec",
+            "Iauthd.Conf.typed_spec", "Iauthd.Conf.typed_reject", "Iauthd.Conf.typed_accept",
+            "Iauthd.Properties.C16", "Iauthd.Properties.C16_typed",
+            "Iauthd.Conf.Cex.f10_pinned_bare", "Iauthd.Conf.Cex.f10_pinned_quoted", "Iauthd.Conf.Cex.f10_fixed",
+            "Iauthd.Conf.Cex.f11_pinned", "Iauthd.Conf.Cex.f11_fixed",
+            "Iauthd.Conf.Cex.f12_pinned_list_before_brace", "Iauthd.Conf.Cex.f12_pinned_object_before_brace",
+            "Iauthd.Conf.Cex.f12_pinned_string_at_eof", "Iauthd.Conf.Cex.f12_pinned_comma_list_at_eof", "Iauthd.Conf.Cex.f12_fixed",
+            "Iauthd.Conf.Cex.f26_pinned", "Iauthd.Conf.Cex.f26_fixed"],
 }
 
 
@@ -120,6 +132,9 @@ def lean_modules(prop):
         mods += ["Iauthd.Conf.ProofsRead"]
     if prop == "C15":
         mods += ["Iauthd.Conf.ProofsHeap", "Iauthd.Conf.ProofsSettle", "Iauthd.Conf.ProofsHooks"]
+    if prop == "C16":
+        mods += ["Iauthd.Conf.ProofsRender", "Iauthd.Conf.ProofsCanon", "Iauthd.Conf.ProofsRoundtrip", "Iauthd.Conf.ProofsBridge",
+                 "Iauthd.Conf.ProofsTyped"]
     return mods + ["Iauthd.Properties." + prop]
 
 
